@@ -1101,7 +1101,8 @@ def gen_m_call(g, gs, cfg, mid, force_method=None):
             if g.random() < 0.5:
                 a["n"] = g.randint(1, 10)
         else:
-            a["n"] = g.randint(1, cfg["nmax"])
+            if g.random() < 0.95:
+                a["n"] = g.randint(1, cfg["nmax"])      # else: the default sample size
             rec["seed"] = g.choice(seeds + [None])
         if invalid:
             kind = g.choice(["do", "shift", "noise"])
